@@ -97,10 +97,14 @@ def cStdJoin (n : Nat) (es : List (Option Err)) : Option Err :=
   | [] => none
   | l => some (.multi (lid n 0) .stdJoin l)
 
-/-- contexttags.WithContextTags: no tags in the context = unchanged -/
-def cTags (n : Nat) (tags : List (Str × Str)) : Option Err → Option Err
+/-- contexttags.WithContextTags: no tags in the context = unchanged.  `tags` are the keys
+    with the string form of their values; `red` is the layer's SafeDetails() — it depends
+    on whether a value is a plain string (redacted), a Safe value (kept) or nil, and is
+    computed by the real redact package (an input here, like `rs`). -/
+def cTags (n : Nat) (tags : List (Str × Str)) (red : List Str) : Option Err → Option Err
   | none => none
-  | some e => if tags = [] then some e else some (.wrap (lid n 0) (.withContext tags none) e)
+  | some e => if tags = [] then some e
+    else some (.wrap (lid n 0) (.withContext tags (if red = [] then none else some red)) e)
 
 /-- errutil.AssertionFailedf (no error args) -/
 def cAssertionFailedf (n : Nat) (rs : RStr) (st : Stack) : Option Err :=
